@@ -118,3 +118,40 @@ Theorem expansion_by_time_loses_committed :
                  FExpandBehind 2; FBase (KElect 2 5)]%N in
   c_committed c = [(4, 0); (4, 1); (4, 2)]%N /\ c_leader c = 2%N /\ log_of c 2%N = [(4, 0)]%N /\ committed_lost c = true.
 Proof. vm_compute. repeat split; reflexivity. Qed.
+
+(* ---- the two steps, guarded ----
+   A history of the extended step relation in which every fallback is taken by a replica outside
+   the in-sync set or with a current HW, and every re-admission is of a replica that holds
+   everything committed, keeps the invariant: the two refuted steps are the only ways out. *)
+Definition step_guard (c : cluster) (x : fstep) : Prop :=
+  match x with
+  | FBase _ => True
+  | FFallback r => ~ In r (c_isr c) \/ hw_of c r + 1 = Z.of_nat (length (c_committed c))
+  | FExpandBehind r => (length (c_committed c) <= length (log_of c r))%nat
+  end.
+
+Fixpoint guarded (c : cluster) (xs : list fstep) : Prop :=
+  match xs with
+  | [] => True
+  | x :: r => match fstep_apply c x with
+              | Some c' => step_guard c x /\ guarded c' r
+              | None => guarded c r
+              end
+  end.
+
+Theorem fstep_inv c x c' : Inv c -> step_guard c x -> fstep_apply c x = Some c' -> Inv c'.
+Proof.
+  intros HI Hg H. destruct x as [x|r|r]; cbn [fstep_apply step_guard] in *.
+  - apply (step_inv c x c' HI H).
+  - destruct (mem r (c_synced c)) eqn:Em; [discriminate|]. injection H as <-. apply fallback_inv; [exact HI| |exact Hg].
+    intros Hin. apply mem_in in Hin. congruence.
+  - destruct (mem r (c_isr c)); [discriminate|]. destruct (mem r (c_synced c)) eqn:Em; [|discriminate]. injection H as <-.
+    apply expand_behind_inv; [exact HI|apply mem_in; exact Em|exact Hg].
+Qed.
+
+Theorem guarded_histories_keep_the_invariant xs : forall c, Inv c -> guarded c xs -> Inv (frun c xs).
+Proof.
+  induction xs as [|x r IH]; intros c HI Hg; cbn [frun guarded] in *; [exact HI|].
+  destruct (fstep_apply c x) as [c'|] eqn:E; [|apply IH; assumption].
+  destruct Hg as [Hg1 Hg2]. apply IH; [apply (fstep_inv c x c' HI Hg1 E)|exact Hg2].
+Qed.
